@@ -2,6 +2,7 @@ package sim
 
 import (
 	"encoding/json"
+	"errors"
 	"fmt"
 	"io"
 	"os"
@@ -312,6 +313,17 @@ func tokOf(w *schedWorld, target string) (token.Token, crypto.PrivKey) {
 	return w.dlgs[i%len(w.dlgs)], w.dlgPriv[i%len(w.dlgs)]
 }
 
+// failingSink accepts failAt writes and fails from then on.
+type failingSink struct{ failAt, calls int }
+
+func (f *failingSink) Write(p []byte) (int, error) {
+	f.calls++
+	if f.calls > f.failAt {
+		return 0, errors.New("dsim: sink failed")
+	}
+	return len(p), nil
+}
+
 type discard struct{ n int }
 
 func (d *discard) Write(p []byte) (int, error) { d.n += len(p); return len(p), nil }
@@ -366,6 +378,16 @@ func schedOp(w *schedWorld, name string) func() string {
 		b, c, err := tk.ToSealed(pk)
 		return func() string { return fmt.Sprintf("%s %x %s", errStr(err), harnessCID(b), c) }
 	case "ToSealedWriter":
+		d := &discard{}
+		c, err := tk.ToSealedWriter(d, pk)
+		return func() string { return fmt.Sprintf("%s %d %s", errStr(err), d.n, c) }
+	case "ToSealedWriterAfterFailure":
+		// a sealing whose sink fails part-way (an ordinary event for a network writer), then the
+		// same sealing into a good sink: the second is what it always is
+		for _, failAt := range []int{0, 1, 3} {
+			f := &failingSink{failAt: failAt}
+			_, _ = tk.ToSealedWriter(f, pk)
+		}
 		d := &discard{}
 		c, err := tk.ToSealedWriter(d, pk)
 		return func() string { return fmt.Sprintf("%s %d %s", errStr(err), d.n, c) }
@@ -1106,10 +1128,10 @@ func genSched(r *Rand, g GenCfg) Plan {
 	for i := 0; i < nl; i++ {
 		targets = append(targets, fmt.Sprintf("dlg%d", i))
 	}
-	invOps := []string{"ExecutionAllowed", "ExecutionAllowed", "ExecutionAllowed", "ExecutionAllowed", "ExecutionAllowed", "ExecutionAllowedHook", "ExecutionAllowedEmptyStore", "ExecutionAllowedPartialStore", "ToSealed", "ToSealedWriter", "ToDagCbor", "ToDagJson", "Encode", "Accessors", "Derived", "IsValid",
+	invOps := []string{"ExecutionAllowed", "ExecutionAllowed", "ExecutionAllowed", "ExecutionAllowed", "ExecutionAllowed", "ExecutionAllowedHook", "ExecutionAllowedEmptyStore", "ExecutionAllowedPartialStore", "ToSealed", "ToSealedWriter", "ToSealedWriterAfterFailure", "ToDagCbor", "ToDagJson", "Encode", "Accessors", "Derived", "IsValid",
 		"ArgsIter", "ArgsString", "ArgsToIPLD", "ArgsGetNode", "ArgsEquals", "ArgsClone", "ArgsCloneMutate", "MetaCloneMutate", "ExecutionAllowedHookAdd", "ExecutionAllowedHookInclude", "ExecutionAllowedHookInclude", "MetaIter", "MetaString", "MetaGet", "MetaGetEncrypted", "MetaEquals", "MetaClone",
 		"StoreGet", "StoreIter", "ContainerWrite"}
-	dlgOps := []string{"ToSealed", "ToSealedWriter", "ToDagJson", "Encode", "Accessors", "Derived", "Derived", "IsValid", "MetaIter", "MetaString", "MetaGet", "MetaEquals", "MetaClone", "MetaCloneMutate", "PolicyString", "PolicyMatch", "PolicyMatchAlt", "PolicyMatchAlt", "StoreGet"}
+	dlgOps := []string{"ToSealed", "ToSealedWriter", "ToSealedWriterAfterFailure", "ToDagJson", "Encode", "Accessors", "Derived", "Derived", "IsValid", "MetaIter", "MetaString", "MetaGet", "MetaEquals", "MetaClone", "MetaCloneMutate", "PolicyString", "PolicyMatch", "PolicyMatchAlt", "PolicyMatchAlt", "StoreGet"}
 	decodeOps := []string{"DecodeSealed", "DecodeForged", "DecodeTyped", "DecodeForgedTyped", "DecodeDagCbor", "DecodeForgedDagCbor", "DecodeContainer"}
 	if g.Focus == "C06" {
 		// decoders only, honest and forged bytes of the same token side by side
